@@ -28,21 +28,24 @@ def configure(obj, kind, case):
     # "aw_first": the pipes are opened while another address width is in effect; the common
     # width is assigned afterwards (Pair.__init__) without re-opening anything
     obj.address_length = case.get("aw_first") or case["aw"]
+    # "static_cfg": the payload-length mode configured first; a later `ack = True` ("ack_on"
+    # history) switches the link to dynamic payloads, which is what case["static"] then says
+    static = case.get("static_cfg", case["static"])
     if kind == "full":
         if case["crc"] == 0 or not case["auto_ack"]:
             obj.auto_ack = False
         obj.crc = case["crc"]
-        if case["static"] is None:
+        if static is None:
             obj.dynamic_payloads = True
         else:
             obj.dynamic_payloads = False
-            obj.payload_length = case["static"]
+            obj.payload_length = static
     else:
-        if case["static"] is None:
+        if static is None:
             obj.dynamic_payloads = True
         else:
             obj.dynamic_payloads = False
-            obj.payload_length = case["static"]
+            obj.payload_length = static
     if case.get("ard"):
         obj.ard = case["ard"]
     if case.get("arc") is not None:
@@ -107,7 +110,21 @@ class Pair:
         # compatibly: role round trips, `with` re-entry (then the role is asserted again as the
         # examples do), the sender also listening on a pipe-0 address of its own
         for op in case.get("pre", ()):
-            if op == "tx_rx0" and tx_kind == "full":
+            if op == "ack_on":
+                # ACK payloads enabled on both ends after the set-up (documented side effect:
+                # dynamic payloads are switched on - for every pipe in the lite driver, for
+                # pipe 0 in the full one)
+                self.tx.ack = True
+                self.rx.listen = False
+                self.rx.ack = True
+                self.rx.listen = True
+            elif op == "ack_load":
+                self.rx.listen = False
+                self.rx.ack = True
+                self.rx.listen = True
+                self.tx.load_ack(b"x", 0)  # implicit `ack = True`; the payload itself is flushed
+                self.tx.flush_tx()
+            elif op == "tx_rx0" and tx_kind == "full":
                 self.tx.open_rx_pipe(0, ALT_RX0)
             elif op == "tx_toggle":
                 self.tx.listen = True
